@@ -213,10 +213,17 @@ func runInBubble(c *mc.Ctx, u mc.Unit) {
 	fb := &fakeBlocks{ch: make(chan types.EventNewBlock), cur: p.Start}
 	rec := &recorder{fb: fb}
 	var sub types.GenericSubscriber[types.EpochEvent] = rec
-	var hubCh <-chan types.EpochEvent
+	var hubCh, hubCh2 <-chan types.EpochEvent
+	second := 0
 	if p.Hub {
 		hub := aggsender.NewGenericSubscriberImpl[types.EpochEvent]()
 		hubCh = hub.Subscribe("verif")
+		// a second consumer of the same hub (it reads at once): under another name, or under the same name (two
+		// components of the same kind attached to one publisher)
+		if second = c.Choose(3, "second-subscriber"); second > 0 { //nolint:mnd
+			hubCh2 = hub.Subscribe(map[int]string{1: "verif-2", 2: "verif"}[second])
+			c.Witness(fmt.Sprintf("hub_executions_with_a_second_subscriber/%s", map[int]string{1: "other-name", 2: "same-name"}[second]))
+		}
 		sub = hub
 	}
 	n, err := aggsender.NewEpochNotifierPerBlock(fb, kit.Logger(),
@@ -257,18 +264,19 @@ func runInBubble(c *mc.Ctx, u mc.Unit) {
 		}
 	}
 	busyFrom, busyLen := -1, 0
-	var hubGot []uint64
-	drain := func() {
-		for {
+	var hubGot, hubGot2 []uint64
+	drainFrom := func(ch <-chan types.EpochEvent, into *[]uint64) {
+		for ch != nil {
 			select {
-			case e := <-hubCh:
-				hubGot = append(hubGot, e.Epoch)
+			case e := <-ch:
+				*into = append(*into, e.Epoch)
 				synctest.Wait()
 			default:
 				return
 			}
 		}
 	}
+	drain := func() { drainFrom(hubCh, &hubGot) }
 	if p.Hub {
 		busyFrom = c.Choose(len(candidates)+1, "subscriber-busy-from-block") - 1 // -1: never busy
 		if busyFrom >= 0 {
@@ -284,6 +292,7 @@ func runInBubble(c *mc.Ctx, u mc.Unit) {
 				want = append(want, ev{e, b, int(epochStart(p, e+1) - b)})
 				lastEpochAnnounced = e
 			}
+			drainFrom(hubCh2, &hubGot2)
 			if busyFrom < 0 || i < busyFrom || i >= busyFrom+busyLen {
 				drain()
 			} else {
@@ -327,10 +336,27 @@ func runInBubble(c *mc.Ctx, u mc.Unit) {
 	}
 	if p.Hub {
 		drain()
+		drainFrom(hubCh2, &hubGot2)
 		cancel()
 		<-done
-		c.Obs("fed=%v busy=[%d,+%d) received=%v", fed, busyFrom, busyLen, hubGot)
+		c.Obs("fed=%v busy=[%d,+%d) received=%v second(%d)=%v", fed, busyFrom, busyLen, hubGot, second, hubGot2)
 		c.NonTrivial()
+		if second > 0 {
+			got2 := map[uint64]int{}
+			for _, e := range hubGot2 {
+				got2[e]++
+			}
+			for _, w := range want {
+				if got2[w.Epoch] != 1 {
+					c.Failf("hub/epoch-not-delivered-exactly-once/second-subscriber", "cfg %+v fed %v: epoch %d (announced at block %d) reached the second subscriber (%s) %d times; it received %v, want the epochs of %v",
+						p, fed, w.Epoch, w.AtBlock, map[int]string{1: "another name", 2: "the same name as the first"}[second], got2[w.Epoch], hubGot2, want)
+					break
+				}
+			}
+			if len(hubGot2) > len(want) && !c.Failed() {
+				c.Failf("hub/extra-notification/second-subscriber", "cfg %+v fed %v: the second subscriber received %v, want the epochs of %v", p, fed, hubGot2, want)
+			}
+		}
 		got := map[uint64]int{}
 		for _, e := range hubGot {
 			got[e]++
